@@ -1161,6 +1161,12 @@ def run(tier, seed):
                                   rec["rest"]["mask"][min(f[2], len(rec["rest"]["mask"]) - 1)],
                                   rec["rest"]["done"][min(f[2], len(rec["rest"]["done"]) - 1)],
                                   rec["orig"]["reward"], rec["rest"]["reward"], rec["greedy_o"], rec["greedy_r"])})
+    # data routing (Routing.tla): the content a phase reads from a file is what was saved there
+    from . import c17b_routing
+    rt_viol, rt_cov = c17b_routing.violations(tier, seed)
+    viol += [v for v in rt_viol if v["property"] == "C19"]
+    stats["states"] += rt_cov["states"]
+    stats["transitions"] += rt_cov["transitions"]
     n_new, n_known = verdict.report("C19", viol)
     samples.append({"real_record": {k: recs[0][k] for k in ("kind", "what", "a", "orig")}})
     samples.append({"real_record": {k: recs[-1][k] for k in ("kind", "what", "greedy_o", "greedy_r", "content_equal")}})
